@@ -15,6 +15,8 @@ def history(rng, wld, nsteps, keys):
     from whoosh import query, fields
     searchers = []
     extra_fields = 0
+    dupseq = [0]
+    dupkeys = set()
     for step in range(nsteps):
         name, wr = wld.writer()
         pool = list(keys)
@@ -24,6 +26,7 @@ def history(rng, wld, nsteps, keys):
         sc = rng.random()
         wld.actor(name)
         pending_fields = extra_fields          # takes effect only if this writer commits
+        pend_dup, pend_undup = set(), set()
         if sc < 0.15 and extra_fields < 2:
             pending_fields = extra_fields + 1
             wld.guarded(name, "add_field", lambda: wr.add_field("extra%d" % pending_fields, fields.KEYWORD(stored=True)))
@@ -36,6 +39,10 @@ def history(rng, wld, nsteps, keys):
             op = rng.random()
             k = pool.pop()
             wld.actor(name)
+            # a key that has coexisting documents (added with add_document) is only deleted, not updated:
+            # what update_document does to several documents with one "unique" value is not specified
+            if k in dupkeys and op < 0.42:
+                op = 0.45
             if op < 0.35:
                 # second unique field: sometimes supplied, with values that collide across keys
                 uid = rng.choice([0, 0, 1, 2, 3, 4]) if getattr(wld, "use_uid", False) else 0
@@ -47,21 +54,34 @@ def history(rng, wld, nsteps, keys):
                 kw = {"uid": uid} if uid else {}
                 kw["tags"] = u" ".join(rng.sample([u"ta", u"tb", u"tc"], rng.randrange(0, 4)))
                 wr.update_document(key=k, body=u"xx %s" % k, n=len(k) + step, **kw)
+            elif op < 0.42:
+                # a plain add_document of a key that may already be live (no uniqueness is enforced):
+                # the documents coexist until a delete or update selects them all
+                dupseq[0] += 1
+                pend_dup.add(k)
+                uid = 1000 + dupseq[0]
+                wld.log.emit("api", op="adddup", key=k, uid=uid)
+                wld.actor(name)
+                wr.add_document(key=k, uid=uid, body=u"xx %s" % k, n=len(k) + step)
             elif op < 0.5:
                 ret = wr.delete_by_term("key", k)
+                pend_undup.add(k)
                 wld.log.emit("api", op="deletemany", keys=[k], ret=int(ret))
             elif op < 0.65:
                 ks = [k] + ([pool.pop()] if pool else [])
                 q = query.Or([query.Term("key", x) for x in ks])
                 ret = wr.delete_by_query(q)
+                pend_undup.update(ks)
                 wld.log.emit("api", op="deletemany", keys=ks, ret=int(ret))
             elif op < 0.75:
                 # delete by document number: find the committed document carrying k, if any
                 with wr.searcher() as s:
-                    dn = s.document_number(key=k)
-                if dn is not None:
+                    dns = list(s.document_numbers(key=k))       # (several when the key was added twice)
+                if dns:
                     wld.actor(name)
-                    wr.delete_document(dn)
+                    pend_undup.add(k)
+                    for dn in dns:
+                        wr.delete_document(dn)
                     wld.log.emit("api", op="deletemany", keys=[k], ret=-1)
         wld.actor(name)
         end = rng.random()
@@ -76,12 +96,18 @@ def history(rng, wld, nsteps, keys):
         elif end < 0.45:
             wr.commit(merge=False)
             extra_fields = pending_fields
+            dupkeys.difference_update(pend_undup)
+            dupkeys.update(pend_dup)
         elif end < 0.6:
             wr.commit(optimize=True)
             extra_fields = pending_fields
+            dupkeys.difference_update(pend_undup)
+            dupkeys.update(pend_dup)
         else:
             wr.commit()
             extra_fields = pending_fields
+            dupkeys.difference_update(pend_undup)
+            dupkeys.update(pend_dup)
         rname = wld.new_reader_name()
         ok, s = wld.guarded(rname, "searcher", wld.ix.searcher)
         if ok:
@@ -90,8 +116,15 @@ def history(rng, wld, nsteps, keys):
                 searchers.append((rname, s))
             else:
                 s.close()
-        for nm, s in searchers:
+        for i, (nm, s) in enumerate(list(searchers)):
             wld.probe(nm, s)
+            if rng.random() < 0.4:
+                # a long-lived searcher that is refreshed instead of reopened
+                nm2 = wld.new_reader_name()
+                ok, s2 = wld.guarded(nm2, "refresh", s.refresh)
+                if ok and s2 is not s:
+                    searchers[i] = (nm2, s2)
+                    wld.probe(nm2, s2)
     for nm, s in searchers:
         s.close()
 
